@@ -3,7 +3,7 @@ import sys
 
 import numpy as np
 
-from .. import gen, install, loops
+from .. import gen, install, loops, models
 from ..common import COSTS, DISTANCES, EPS, cost, distance, pick, shard_count
 
 sys.setrecursionlimit(20000)
@@ -34,7 +34,9 @@ def _cost_fn(costname):
 
 
 class _Explainer:
-    def __init__(self, mods, pts, retained, t, distname, costname):
+    def __init__(self, mods, pts, retained, t, distname, costname, ctx=None):
+        self.ctx = ctx
+        self.model_checks = 0
         self.pts = pts
         self.ret = retained
         self.retset = set(int(r) for r in retained)
@@ -58,6 +60,19 @@ class _Explainer:
             r = 1.0 if self.costname == 'r2' else 0.0
         else:
             r = self.ccc(pt, self.fit(pt))
+            if self.ctx is not None and self.model_checks < 6:
+                # the primitive's value is cross-checked against its definition (long double) on well-conditioned
+                # segments, so that a broken shared primitive is observable here too (a few segments per call)
+                self.model_checks += 1
+                mod = models.endpoint_line_cost(pt, self.costname)
+                if mod is None:
+                    self.ctx.ood('cost-model', 'ill-conditioned')
+                else:
+                    v, tol = mod
+                    self.ctx.mx(f'cost_model_err_over_tol:{self.costname}', abs(float(r) - v) / (tol + 1e-300))
+                    self.ctx.check(abs(float(r) - v) <= tol, 'cost-model', f'primitive:cost-model:{self.costname}',
+                                   f'endpoint-line {self.costname} of segment [{a},{b}] evaluated as {float(r)!r}; the definition gives {v!r} (tol {tol:.3g})',
+                                   segment=[a, b], n=len(pt), segment_head=np.asarray(pt)[:5])
         return (r < self.t if self.costname == 'r2' else r >= self.t), r
 
     def explain(self, a, b):
@@ -124,7 +139,7 @@ def post_rdp(mods):
                 or not np.all(np.diff(reduced) > 0):
             ctx.ood('partition', 'malformed-reduction(C01)')
             return
-        ex = _Explainer(mods, pts, reduced, t, dist.value, cst.value)
+        ex = _Explainer(mods, pts, reduced, t, dist.value, cst.value, ctx)
         try:
             ok, fail = ex.explain(0, n - 1)
         except (OverflowError, RecursionError):
